@@ -6,6 +6,14 @@ package gw
 import (
 	"bufio"
 	"bytes"
+	"crypto/ecdsa"
+	"crypto/elliptic"
+	"crypto/rand"
+	"crypto/tls"
+	"crypto/x509"
+	"crypto/x509/pkix"
+	"math/big"
+	"strings"
 	"encoding/json"
 	"fmt"
 	"io"
@@ -51,6 +59,7 @@ type Config struct {
 	ChownUID      bool   `json:"chown_uid,omitempty"`
 	ChownGID      bool   `json:"chown_gid,omitempty"`
 	Health        string `json:"health,omitempty"`
+	TLS           bool   `json:"tls,omitempty"` // serve HTTPS with a throw-away self-signed certificate
 
 	HookLog  string `json:"hook_log,omitempty"`  // ndjson file of hook hits
 	GateSock string `json:"gate_sock,omitempty"` // unix socket of the schedule controller
@@ -187,7 +196,9 @@ func gate(sock, label, site string, kv map[string]string) {
 func Build(cfg Config) (*fiber.App, backend.Backend, auth.IAMService, error) {
 	var be backend.Backend
 	if cfg.ProxyEndpoint != "" {
-		p, err := s3proxy.New(cfg.ProxyAccess, cfg.ProxySecret, cfg.ProxyEndpoint, cfg.Region, false, false, false)
+		// (the AWS SDK refuses to stream an unseekable body to a plain-HTTP endpoint, so the
+		// proxied endpoint is served over TLS with a self-signed certificate)
+		p, err := s3proxy.New(cfg.ProxyAccess, cfg.ProxySecret, cfg.ProxyEndpoint, cfg.Region, false, strings.HasPrefix(cfg.ProxyEndpoint, "https://"), false)
 		if err != nil {
 			return nil, nil, nil, fmt.Errorf("s3proxy: %w", err)
 		}
@@ -254,6 +265,22 @@ func Build(cfg Config) (*fiber.App, backend.Backend, auth.IAMService, error) {
 	return app, be, iam, nil
 }
 
+func selfSigned() (tls.Certificate, error) {
+	key, err := ecdsa.GenerateKey(elliptic.P256(), rand.Reader)
+	if err != nil {
+		return tls.Certificate{}, err
+	}
+	tmpl := &x509.Certificate{SerialNumber: big.NewInt(1), Subject: pkix.Name{CommonName: "127.0.0.1"},
+		NotBefore: time.Now().Add(-time.Hour), NotAfter: time.Now().Add(24 * time.Hour),
+		KeyUsage: x509.KeyUsageDigitalSignature, ExtKeyUsage: []x509.ExtKeyUsage{x509.ExtKeyUsageServerAuth},
+		IPAddresses: []net.IP{net.ParseIP("127.0.0.1")}}
+	der, err := x509.CreateCertificate(rand.Reader, tmpl, tmpl, &key.PublicKey, key)
+	if err != nil {
+		return tls.Certificate{}, err
+	}
+	return tls.Certificate{Certificate: [][]byte{der}, PrivateKey: key}, nil
+}
+
 // RunGwd is the entry point of the "gwd" sub-command.
 func RunGwd(arg string) int {
 	var cfg Config
@@ -277,6 +304,14 @@ func RunGwd(arg string) int {
 	if err != nil {
 		fmt.Fprintln(os.Stderr, "gwd: listen:", err)
 		return 2
+	}
+	if cfg.TLS {
+		cert, err := selfSigned()
+		if err != nil {
+			fmt.Fprintln(os.Stderr, "gwd: cert:", err)
+			return 2
+		}
+		ln = tls.NewListener(ln, &tls.Config{Certificates: []tls.Certificate{cert}})
 	}
 	fmt.Fprintf(stdout, "READY %s\n", ln.Addr().String())
 	// exit when the parent closes stdin
